@@ -714,6 +714,15 @@ class C06(Spec):
     def sample(self, case, res):
         return {'seed': case['seed'], 'cfg': case['cfg'], 'prog': case['prog'], 'results': repr(res.results)[:300]}
 
+    def kf_cases(self, tier):
+        # finding secfld-signedness-shared-per-modulus: the program defines an UNSIGNED field type whose modulus is the
+        # prime of SecFxp(38,19) (k=30: 2^89-1), then converts a negative fixed-point number to an integer
+        return [{'family': 'conv', 'cfg': _cfgj(3, 1),
+                 'prog': {'family': 'conv', 'pretypes': [{'kind': 'fld', 'p': 2 ** 89 - 1, 'signed': False}],
+                          'steps': [{'kind': 'fxp', 'l': 38, 'f': 19}, {'kind': 'int', 'l': 48}],
+                          'values': [[-2, 1]], 'dummy': [[1, 1]], 'sender': 0, 'scalar': False,
+                          'tags': ['shared_modulus_signedness']}}]
+
 
 from fractions import Fraction as _Fr  # noqa: E402
 
